@@ -572,7 +572,10 @@ def model_steps(ans):
         raise common.InfraError("model driver: %s" % ans["bad-op"])
     out = []
     for st in ans["steps"]:
+        fl = st.get("files") or {"vfiles": [], "cfiles": [], "abs": {"decls": [], "tags": []}}
         out.append({"out": st["out"], "crashed": st["crashed"], "loaded": [sorted(x) for x in st["flavs"]],
                     "db": canon_spec(st["db"]), "view": canon_spec(st["view"]), "trace": st["trace"],
-                    "caches": st["caches"]})
+                    "caches": st["caches"],
+                    "raw": {"vfiles": sorted(fl["vfiles"]), "cfiles": sorted(fl["cfiles"])},
+                    "files_abs": canon_spec(fl["abs"])})
     return out
